@@ -243,6 +243,15 @@ impl<SVC: Service> CloudServer<SVC> {
 
     /// Perform cleanup, deleting unnecessary data.
     async fn cleanup(&mut self) -> Result<()> {
+        // Read "latest" before listing anything, so that every version on the chain up to it
+        // appears in the listing. Versions added while cleanup runs are then simply unknown here,
+        // and only objects known to be dead are deleted below.
+        let latest = self.get_latest().await?;
+        if latest.is_none() {
+            // There is no chain yet, and any uploaded version may still become its first version.
+            return Ok(());
+        }
+
         // Construct a vector containing all (child, parent, creation) tuples
         let mut versions = {
             let mut versions = Vec::new();
@@ -272,7 +281,6 @@ impl<SVC: Service> CloudServer<SVC> {
         // at "latest".
         let mut rev_chain = HashMap::new();
         let mut iterations = versions.len() + 1; // For cycle detection.
-        let latest = self.get_latest().await?;
         if let Some(mut c) = latest {
             while let Some(p) = parent_of(c) {
                 rev_chain.insert(c, p);
@@ -309,12 +317,17 @@ impl<SVC: Service> CloudServer<SVC> {
             })
             .collect();
 
-        // Now, any pair not present in that chain can be deleted. However, another replica
-        // may be in the state where it has uploaded a version but not changed "latest" yet,
-        // so any pair with parent equal to latest is allowed to stay.
+        // Now, any pair not present in that chain can be deleted if its place on the chain is
+        // already taken, that is, if its parent already has a child on the chain. Another replica
+        // may have uploaded a version but not changed "latest" yet, or may have added versions
+        // since "latest" was read above, so pairs whose parent is latest, or is not known to be
+        // on the chain, are allowed to stay.
+        let has_child: HashSet<Uuid> = rev_chain.values().copied().collect();
+        let mut dead_versions = HashSet::new();
         for (c, p, _) in versions {
-            if rev_chain.get(&c) != Some(&p) && Some(p) != latest {
+            if rev_chain.get(&c) != Some(&p) && has_child.contains(&p) {
                 self.service.del(&Self::version_name(&p, &c)).await?;
+                dead_versions.insert(c);
             }
         }
 
@@ -358,7 +371,11 @@ impl<SVC: Service> CloudServer<SVC> {
             return Ok(());
         };
         for version in snapshots {
-            if version != latest_snapshot {
+            // Snapshots of versions added since "latest" was read are not known here and stay.
+            let known = rev_chain.contains_key(&version)
+                || has_child.contains(&version)
+                || dead_versions.contains(&version);
+            if version != latest_snapshot && known {
                 self.service.del(&Self::snapshot_name(&version)).await?;
             }
         }
